@@ -127,7 +127,7 @@ func (p *pool) runChunk(cases []Case, obs []*Obs, from, to int, dir string, seq 
 func (p *pool) child(path string, cases []Case, obs []*Obs, first int) (died bool, at int, err error) {
 	limit := p.limit
 	cmd := exec.Command(p.self, "child", path, "-rss", strconv.FormatInt(p.rss, 10), "-limit", limit.String(), "-stack", strconv.Itoa(p.stack))
-	cmd.Env = append(os.Environ(), "GOMAXPROCS=2", "GOTRACEBACK=single")
+	cmd.Env = append(os.Environ(), "GOMAXPROCS=1", "GOTRACEBACK=single")
 	stdout, err := cmd.StdoutPipe()
 	if err != nil {
 		return false, 0, err
@@ -293,18 +293,40 @@ func (p *pool) run(cases []Case) ([]*Obs, error) {
 	if firstErr != nil {
 		return nil, firstErr
 	}
-	// confirm time-limit deaths alone, with a three times longer limit
+	// confirm time-limit deaths alone (in parallel), with a three times longer limit
+	var slow []int
 	for i, o := range obs {
 		if o != nil && o.Crashed && o.CrashWhy == "time-limit" {
-			old := p.limit
-			p.limit = 3 * old
-			one := make([]*Obs, len(cases))
-			err := p.runChunk(cases, one, i, i+1, dir, 1000000+i)
-			p.limit = old
-			if err != nil {
-				return nil, err
-			}
-			obs[i] = one[i]
+			slow = append(slow, i)
+		}
+	}
+	if len(slow) > 0 {
+		old := p.limit
+		p.limit = 3 * old
+		sem := make(chan struct{}, p.shards)
+		var wg2 sync.WaitGroup
+		for k, i := range slow {
+			wg2.Add(1)
+			sem <- struct{}{}
+			go func(k, i int) {
+				defer wg2.Done()
+				defer func() { <-sem }()
+				one := make([]*Obs, len(cases))
+				if err := p.runChunk(cases, one, i, i+1, dir, 1000000+k); err != nil {
+					emu.Lock()
+					if firstErr == nil {
+						firstErr = err
+					}
+					emu.Unlock()
+					return
+				}
+				obs[i] = one[i]
+			}(k, i)
+		}
+		wg2.Wait()
+		p.limit = old
+		if firstErr != nil {
+			return nil, firstErr
 		}
 	}
 	return obs, nil
